@@ -298,7 +298,7 @@ func dmRandomHints(rng *fw.Rand) (shape int, min, max *[2]int) {
 var dmExhAlphabet = []rune{'1', '7', 'A', 'Z', 'a', 'z', ' ', '*', '>', '\r', '!', '^', 0x05, 0xE9}
 
 func c02(c *fw.Ctx) {
-	c.Rule("run-structured random Latin-1 strings over seven character classes (digits, C40-native, Text-native, X12 separators, EDIFACT punctuation, controls, 0x80-0xFF; run lengths 1-7), all strings of length <= 3 (thorough: <= 5) over a 14-symbol alphabet with one representative of every class, exact-fill families (Base-256 runs of every length, C40/Text/X12 triplets with 1-2 left-over characters), macro 05/06 envelopes and near misses (other format numbers, header or trailer alone, a damaged separator, text behind the trailer), digit strings reaching each of the 30 sizes, shape and min/max hints; per case: dispatch-step bound (hook), writer result xor error, refusal rules from independent capacity bounds, codewords decoded by the independent ISO 16022 decoder and by the library parser, matrix path, sampled image path (1..4 pixels per module, small symbols also at 33..90); distinct = distinct (text, hints)")
+	c.Rule("run-structured random Latin-1 strings over seven character classes (digits, C40-native, Text-native, X12 separators, EDIFACT punctuation, controls, 0x80-0xFF; run lengths 1-7), all strings of length <= 3 (thorough: <= 5) over a 14-symbol alphabet with one representative of every class, exact-fill families (Base-256 runs of every length, C40/Text/X12 triplets with 1-2 left-over characters, C40/Text runs followed by every short tail of shifted and upper-shifted characters), macro 05/06 envelopes and near misses (other format numbers, header or trailer alone, a damaged separator, text behind the trailer), digit strings reaching each of the 30 sizes, shape and min/max hints; per case: dispatch-step bound (hook), writer result xor error, refusal rules from independent capacity bounds, codewords decoded by the independent ISO 16022 decoder and by the library parser, matrix path, sampled image path (1..4 pixels per module, small symbols also at 33..90); distinct = distinct (text, hints)")
 	c.Assume("must-succeed when the plain-ASCII cost is at most half the largest admissible capacity; must-fail when a per-character lower bound exceeds it or a rune > U+00FF occurs; between the bounds either outcome is accepted (DESIGN C02)")
 	// exhaustive short strings
 	maxLen := c.Pick(3, 5)
@@ -374,6 +374,52 @@ func c02(c *fw.Ctx) {
 		})
 	}
 	c.Exhaustive("Base-256 runs (0x80-0xFF bytes) of every length 1..1556")
+	// C40 / Text end of data with multi-value characters: k native characters, then every tail of
+	// up to 4 (thorough: 6) characters over one representative per value count (1 value: native
+	// letter, digit; 2: the other letter case, '!'; 3: 0xEC, 0xA0 = upper shift + basic; 4: 0xE0 =
+	// upper shift + shift 3).  The encoder gives characters back at the end so that no single
+	// value is left over; how many depends on k mod 3, on the tail and on the symbol boundary.
+	tailLen := c.Pick(4, 6)
+	for fam := 0; fam < 2; fam++ {
+		for k := 0; k <= 26; k++ {
+			fam, k := fam, k
+			c.Run(fmt.Sprintf("eod-shift/%d/%d", fam, k), func(r *fw.Rec) {
+				native, other := byte('a'), byte('A')
+				class := "text-eod-shift-tails"
+				if fam == 0 {
+					native, other = 'A', 'a'
+					class = "c40-eod-shift-tails"
+				}
+				alpha := []rune{rune(native), '1', rune(other), '!', 0xEC, 0xA0, 0xE0}
+				body := make([]rune, k)
+				for i := range body {
+					body[i] = rune(native) + rune(r.Rng.Intn(26))
+				}
+				tail := make([]rune, 0, tailLen)
+				var rec func() bool
+				rec = func() bool {
+					if len(tail) > 0 {
+						if !c02One(r, dmOpts{text: string(body) + string(tail)}, class) {
+							return false
+						}
+					}
+					if len(tail) == tailLen {
+						return true
+					}
+					for _, a := range alpha {
+						tail = append(tail, a)
+						if !rec() {
+							return false
+						}
+						tail = tail[:len(tail)-1]
+					}
+					return true
+				}
+				rec()
+			})
+		}
+	}
+	c.Exhaustive(fmt.Sprintf("C40 and Text runs of 0..26 native characters followed by every tail of up to %d characters over {1, 2, 3, 4-value characters}", tailLen))
 	// C40 / Text / X12 / EDIFACT end-of-data families: k native characters + tail
 	tails := []string{"", "1", "12", "a", "A", "\xe9", "A\xe9", "\xe9\xe9", "*", " ", "!", "\x05"}
 	for fam, alpha := range []string{dmClasses[1][:27], dmClasses[2][:27], "*>\rABC019 ", "!\"#$%&'()+,-./:;<=?@[\\]^ AB12"} {
